@@ -75,6 +75,10 @@ type obsT struct {
 	PullIDOpen  int    `json:"pullIdOpen"`  // PullID channels still open after their item was removed
 	Subscribers int    `json:"subscribers"`
 	WritesDone  int    `json:"writesDone"`
+	// churn phase: subscribers that registered while others were cancelling and writers writing, never cancelled
+	// themselves, and yet did not receive the last write
+	Survivors      int `json:"survivors"`
+	SurvivorMissed int `json:"survivorMissed"`
 }
 
 func goid() int64 {
@@ -535,6 +539,10 @@ func runStorm(c caseT) obsT {
 		closed chan struct{}
 		stopAt int // stops receiving after this many events (then only cancels); -1 = keeps receiving
 		pullID bool
+		// abandon: after it stopped receiving and cancelled it never receives again (a handler that returned);
+		// the library's goroutines must end all the same, and once they have, the channel must be closed
+		abandon bool
+		isOpen  func() bool // non-blocking look at the channel: true unless it is closed
 	}
 	var subs []*sub
 	var pmu sync.Mutex
@@ -543,6 +551,7 @@ func runStorm(c caseT) obsT {
 		s := &sub{cancel: cancel, closed: make(chan struct{}), stopAt: -1}
 		if rnd.Intn(3) == 0 {
 			s.stopAt = rnd.Intn(3)
+			s.abandon = rnd.Intn(2) == 0
 		}
 		ro := []resource.ReadOption{resource.WithBackpressure(rnd.Intn(2) == 0), resource.WithUpdatesOnly(rnd.Intn(2) == 0)}
 		drain := func(recv func() bool) {
@@ -552,6 +561,9 @@ func runStorm(c caseT) obsT {
 				for {
 					if s.stopAt >= 0 && n >= s.stopAt {
 						<-ctx.Done() // stopped receiving without cancelling; cancels later
+						if s.abandon {
+							return
+						}
 						// after the cancel the channel must still close: keep reading until it does
 						for recv() {
 						}
@@ -567,13 +579,37 @@ func runStorm(c caseT) obsT {
 		switch {
 		case val != nil:
 			ch := val.Pull(ctx, ro...)
+			s.isOpen = func() bool {
+				select {
+				case _, ok := <-ch:
+					return ok
+				default:
+					return true
+				}
+			}
 			drain(func() bool { _, ok := <-ch; return ok })
 		case rnd.Intn(3) == 0:
 			s.pullID = true
 			ch := col.PullID(ctx, ids[2], ro...)
+			s.isOpen = func() bool {
+				select {
+				case _, ok := <-ch:
+					return ok
+				default:
+					return true
+				}
+			}
 			drain(func() bool { _, ok := <-ch; return ok })
 		default:
 			ch := col.Pull(ctx, ro...)
+			s.isOpen = func() bool {
+				select {
+				case _, ok := <-ch:
+					return ok
+				default:
+					return true
+				}
+			}
 			drain(func() bool { _, ok := <-ch; return ok })
 		}
 		subs = append(subs, s)
@@ -669,8 +705,232 @@ func runStorm(c caseT) obsT {
 		}
 		cancel()
 	}
+	// churn: many subscribers register while others cancel and a writer writes (every write that meets a
+	// cancelled listener garbage-collects the bus).  Whoever registered and never cancelled is owed the last write.
+	if c.Iter%10 == 5 && o.WriterStall == 0 && o.Unclosed == 0 {
+		const sentinel = 999999
+		pull := func(ctx context.Context) (recv func() (int, bool)) {
+			ro := []resource.ReadOption{resource.WithBackpressure(rnd.Intn(2) == 0), resource.WithUpdatesOnly(rnd.Intn(2) == 0)}
+			if val != nil {
+				ch := val.Pull(ctx, ro...)
+				return func() (int, bool) {
+					e, ok := <-ch
+					if !ok {
+						return 0, false
+					}
+					return int(e.Value.(*testproto.TestAllTypes).DefaultInt32), true
+				}
+			}
+			ch := col.Pull(ctx, ro...)
+			return func() (int, bool) {
+				e, ok := <-ch
+				if !ok {
+					return 0, false
+				}
+				if e.NewValue == nil {
+					return 0, true
+				}
+				return int(e.NewValue.(*testproto.TestAllTypes).DefaultInt32), true
+			}
+		}
+		write := func(v int) {
+			if val != nil {
+				_, _ = val.Set(msg(v))
+			} else {
+				_, _ = col.Update(ids[0], msg(v))
+			}
+		}
+		const victims, survivors = 120, 150
+		var vcancel []context.CancelFunc
+		var vdone []chan struct{}
+		for i := 0; i < victims; i++ {
+			ctx, cancel := context.WithCancel(context.Background())
+			recv := pull(ctx)
+			d := make(chan struct{})
+			go func() {
+				defer close(d)
+				for {
+					if _, ok := recv(); !ok {
+						return
+					}
+				}
+			}()
+			vcancel, vdone = append(vcancel, cancel), append(vdone, d)
+		}
+		stopW := make(chan struct{})
+		wdone := make(chan struct{})
+		go func() {
+			defer close(wdone)
+			for k := 1; ; k++ {
+				select {
+				case <-stopW:
+					return
+				default:
+				}
+				write(k)
+			}
+		}()
+		go func() {
+			for _, cancel := range vcancel {
+				cancel()
+				runtime.Gosched()
+			}
+		}()
+		type surv struct {
+			cancel context.CancelFunc
+			got    chan struct{} // closed when the sentinel arrived
+			ended  chan struct{}
+		}
+		survs := make([]*surv, survivors)
+		var og sync.WaitGroup
+		for g := 0; g < 4; g++ {
+			g := g
+			og.Add(1)
+			go func() {
+				defer og.Done()
+				for i := g; i < survivors; i += 4 {
+					ctx, cancel := context.WithCancel(context.Background())
+					sv := &surv{cancel: cancel, got: make(chan struct{}), ended: make(chan struct{})}
+					recv := pull(ctx)
+					go func() {
+						defer close(sv.ended)
+						seen := false
+						for {
+							v, ok := recv()
+							if !ok {
+								return
+							}
+							if v == sentinel && !seen {
+								seen = true
+								close(sv.got)
+							}
+						}
+					}()
+					survs[i] = sv
+				}
+			}()
+		}
+		og.Wait()
+		for _, d := range vdone {
+			select {
+			case <-d:
+			case <-time.After(8 * time.Second):
+				o.Unclosed++
+			}
+		}
+		close(stopW)
+		select {
+		case <-wdone:
+		case <-time.After(8 * time.Second):
+			o.WriterStall++
+		}
+		if o.WriterStall == 0 {
+			write(sentinel)
+			deadline := time.After(4 * time.Second)
+			for _, sv := range survs {
+				select {
+				case <-sv.got:
+				case <-deadline:
+					o.SurvivorMissed++
+					deadline = time.After(time.Millisecond)
+				}
+			}
+		}
+		o.Survivors = survivors
+		for _, sv := range survs {
+			sv.cancel()
+		}
+		for _, sv := range survs {
+			select {
+			case <-sv.ended:
+			case <-time.After(8 * time.Second):
+				o.Unclosed++
+			}
+		}
+	}
+	// consumers that take the seed, stop receiving while a change is on its way to them, cancel and walk away
+	// (a handler whose stream broke): the write gets through, the goroutines end, the channel is closed
+	var walked []func() bool
+	if o.WriterStall == 0 && o.Unclosed == 0 {
+		walk := func(open func(ctx context.Context, bp resource.ReadOption) (recv func() bool, isOpen func() bool), write func()) {
+			ctx, cancel := context.WithCancel(context.Background())
+			recv, isOpen := open(ctx, resource.WithBackpressure(rnd.Intn(2) == 0))
+			seeded := make(chan bool, 1)
+			go func() { seeded <- recv() }()
+			select {
+			case <-seeded:
+			case <-time.After(5 * time.Second):
+				o.Problem = "no seed within 5s"
+				cancel()
+				return
+			}
+			wrote := make(chan struct{})
+			go func() { defer close(wrote); write() }()
+			time.Sleep(time.Duration(500+rnd.Intn(1500)) * time.Microsecond) // the change reaches the forwarder
+			cancel()
+			select {
+			case <-wrote:
+			case <-time.After(8 * time.Second):
+				o.WriterStall++
+			}
+			walked = append(walked, isOpen)
+		}
+		if val != nil {
+			walk(func(ctx context.Context, bp resource.ReadOption) (func() bool, func() bool) {
+				ch := val.Pull(ctx, bp)
+				return func() bool { _, ok := <-ch; return ok }, func() bool {
+					select {
+					case _, ok := <-ch:
+						return ok
+					default:
+						return true
+					}
+				}
+			}, func() { _, _ = val.Set(msg(41)) })
+		} else {
+			_, _ = col.Update(ids[2], msg(40), resource.WithCreateIfAbsent())
+			walk(func(ctx context.Context, bp resource.ReadOption) (func() bool, func() bool) {
+				ch := col.PullID(ctx, ids[2], bp)
+				return func() bool { _, ok := <-ch; return ok }, func() bool {
+					select {
+					case _, ok := <-ch:
+						return ok
+					default:
+						return true
+					}
+				}
+			}, func() { _, _ = col.Update(ids[2], msg(41)) })
+			walk(func(ctx context.Context, bp resource.ReadOption) (func() bool, func() bool) {
+				ch := col.Pull(ctx, bp)
+				return func() bool { _, ok := <-ch; return ok }, func() bool {
+					select {
+					case _, ok := <-ch:
+						return ok
+					default:
+						return true
+					}
+				}
+			}, func() { _, _ = col.Update(ids[2], msg(42)) })
+		}
+	}
 	if o.Unclosed == 0 && o.WriterStall == 0 {
 		o.Leaked = leaked(base, nil)
+	}
+	if o.Leaked == 0 && o.Unclosed == 0 && o.WriterStall == 0 {
+		for _, isOpen := range walked {
+			if isOpen() && isOpen() && isOpen() {
+				o.Unclosed++
+			}
+		}
+	}
+	if o.Leaked == 0 && o.Unclosed == 0 && o.WriterStall == 0 {
+		// every goroutine of the library has ended: the channels of the consumers that walked away are closed
+		// (a lossy stage may still have handed a last change over before it noticed the cancel: look twice)
+		for _, s := range subs {
+			if s.abandon && s.isOpen() && s.isOpen() && s.isOpen() {
+				o.Unclosed++
+			}
+		}
 	}
 	return o
 }
@@ -695,7 +955,7 @@ func main() {
 		} else {
 			o = runBus(c)
 		}
-		if o.Drift != "" || o.Problem != "" || len(o.Panics) > 0 || o.Unclosed > 0 || o.WriterStall > 0 || o.Leaked > 0 {
+		if o.Drift != "" || o.Problem != "" || len(o.Panics) > 0 || o.Unclosed > 0 || o.WriterStall > 0 || o.Leaked > 0 || o.SurvivorMissed > 0 {
 			bad++
 		}
 		out.Write(o)
